@@ -84,7 +84,7 @@ func subset(a []string, allowed ...string) bool {
 }
 
 func checkC03(p *ana.Prog, r *ana.Result) {
-	r.Explain("C03 (the clause 'the four timestamps it combines all belong to that one exchange', decided as a provenance table that both NTP clients must match): the same four values feed ValidateResponseTimestamps, ClockOffset, RoundTripDelay and Filter.Do; on a basic response t0 = kernel transmit timestamp of this request (or clock reading after the send), t1/t2 = this response's receive/transmit fields, t3 = kernel receive timestamp of this datagram (or clock reading after the read; over SCION also the forwarder's timestamp option); on an interleaved response t0/t1/t3 are the remembered cTxTime/sRxTime/cRxTime of the previous exchange (equivalently the fields of the interleaved request built from them) and t2 this response's transmit field; all NTP timestamps are unfolded against the clock reading taken before the send; the remembered triple is written only after a response was accepted (behind ValidateResponseTimestamps == nil), from this exchange's transmit time, receive time and the response's receive field; an interleaved request copies exactly that triple under InterleavedMode, same reference and the age test; each exchange uses its own socket bound to port 0 and closed on return, so a late response to an earlier exchange cannot arrive on it.")
+	r.Explain("C03 (the clause 'the four timestamps it combines all belong to that one exchange', decided as a provenance table that both NTP clients must match): the same four values feed ValidateResponseTimestamps, ClockOffset, RoundTripDelay and Filter.Do; on a basic response t0 = kernel transmit timestamp of this request (or clock reading after the send), t1/t2 = this response's receive/transmit fields, t3 = kernel receive timestamp of this datagram (or clock reading after the read; over SCION also the forwarder's timestamp option); on an interleaved response t0/t1/t3 are the remembered cTxTime/sRxTime/cRxTime of the previous exchange (equivalently the fields of the interleaved request built from them) and t2 this response's transmit field; all NTP timestamps are unfolded against the clock reading taken before the send; the remembered triple is written only after a response was accepted (behind ValidateResponseTimestamps == nil), from this exchange's transmit time, receive time and the response's receive field; an interleaved request copies exactly that triple under InterleavedMode, same reference and the age test; each exchange uses its own socket bound to port 0 and closed on return, so a late response to an earlier exchange cannot arrive on it; the exported entry points (MeasureClockOffsetIP, the per-path workers of MeasureClockOffsetSCION) report the timestamp and offset of ONE exchange call, with that call's error or behind `its error == nil` - followed jointly through merges, helper functions and function-valued parameters.")
 	r.Undecided("the half-round-trip bound itself, behaviour under loss/duplication/reordering histories, the 3 s window's boundary (<= over IP, < over SCION), kernel timestamp quality")
 	c03Client(p, r, "(*IPClient).measureClockOffsetIP", false)
 	c03Client(p, r, "(*SCIONClient).measureClockOffsetSCION", true)
